@@ -687,7 +687,7 @@ func (x *Exec) applyContract(st *State, ct *Contract, callee *ssa.Function, args
 		st.Alloc = na
 	}
 	var res Value
-	if resT != nil && len(ct.Ensures) == 0 && (ct.Function || ct.Pure && allScalar(args)) {
+	if resT != nil && (ct.Function || len(ct.Ensures) == 0 && ct.Pure && allScalar(args)) {
 		res = x.pureCallT(ct, args, resT)
 		x.assume(st, x.wfValueOrTuple(res, st.Alloc))
 	} else {
